@@ -348,6 +348,55 @@ theorem walkIdx_pure_sup (g : Globals) (tb : String) (dc : List String) : ∀ id
         simp only [hne, h1, Index.migrationUp_pure g i tb ht ha, bind, Except.bind, pure, Except.pure,
           Bool.true_or, Bool.and_self, if_true]
 
+/-- every statement the index walk prints for a record is a PRIMARY KEY statement or an index statement of that table -/
+theorem supStmts_shape (dc : List String) (tb : String) (i : Index) : ∀ s ∈ supStmts dc tb i,
+    s.table = tb ∧ ((∃ cols, s = .addPrimaryKey tb cols) ∨ s = .dropPrimaryKey tb ∨ (idxStmt s).isSome = true) := by
+  intro s hs
+  unfold supStmts at hs
+  split at hs
+  · cases hs
+  · unfold Index.upStmts at hs
+    cases ha : i.action <;> rw [ha] at hs <;> simp only at hs
+    · cases hs
+    · split at hs
+      · rw [List.mem_singleton.mp hs]; exact ⟨rfl, Or.inl ⟨_, rfl⟩⟩
+      · rw [List.mem_singleton.mp hs]; exact ⟨rfl, Or.inr (Or.inr rfl)⟩
+    · split at hs
+      · rw [List.mem_singleton.mp hs]; exact ⟨rfl, Or.inr (Or.inl rfl)⟩
+      · rw [List.mem_singleton.mp hs]; exact ⟨rfl, Or.inr (Or.inr rfl)⟩
+    · rcases List.mem_cons.mp hs with h | h
+      · rw [h]; split
+        · exact ⟨rfl, Or.inr (Or.inl rfl)⟩
+        · exact ⟨rfl, Or.inr (Or.inr rfl)⟩
+      · rw [List.mem_singleton.mp h]; split
+        · exact ⟨rfl, Or.inl ⟨_, rfl⟩⟩
+        · exact ⟨rfl, Or.inr (Or.inr rfl)⟩
+    · cases hs
+    · cases hs
+
+/-- the records `Table.Diff` leaves print their own statements, less the suppressed drops -/
+theorem walkIdx_sup_eq (g : Globals) (tb : String) (dc : List String) (t o : Table) (ht : ∀ i ∈ t.idxs, i.Live)
+    (ho : ∀ i ∈ o.idxs, i.Live) (L : List Index)
+    (hL : L = t.idxs.map (tagIdx o) ++
+          (o.idxs.filter (fun oi => !t.idxNames.contains oi.name)).map (fun oi => { oi with action := .remove })) :
+    walkIdx g tb true dc L = .ok (L.flatMap (supStmts dc tb)) := by
+  subst hL
+  refine walkIdx_pure_sup g tb dc _ ?_
+  intro x hx
+  rcases List.mem_append.mp hx with h | h
+  · obtain ⟨i, hi, rfl⟩ := List.mem_map.mp h
+    have hl := ht i hi
+    unfold tagIdx
+    cases o.idxs.find? (fun y => y.name == i.name) with
+    | none => exact ⟨hl.typ, Or.inr (Or.inl hl.add)⟩
+    | some oi =>
+      simp only
+      split
+      · exact ⟨hl.typ, Or.inl rfl⟩
+      · exact ⟨hl.typ, Or.inr (Or.inr (Or.inr rfl))⟩
+  · obtain ⟨oi, hoi, rfl⟩ := List.mem_map.mp h
+    exact ⟨(ho oi (List.mem_filter.mp hoi).1).typ, Or.inr (Or.inr (Or.inl rfl))⟩
+
 /-- **the index walk with a dropped-column list refines `Abs.Idx.emitSup`** -/
 theorem walkIdx_refines_sup (g : Globals) (tb : String) (dc : List String) (t o : Table) (ht : ∀ i ∈ t.idxs, i.Live)
     (ho : ∀ i ∈ o.idxs, i.Live) :
